@@ -25,10 +25,16 @@ _TAGS = re.compile(r'"([^"]*)"')
 
 
 def mc(ctx):
-    ctx.tlc_mc("MC_A64", "MC_A64_flags.cfg", key="MC_A64 NZCV lemmas w<=6 LimbBits=3", workers=4, heap="4g")
-    ctx.tlc_mc("MC_A64", "MC_A64_ext.cfg", key="MC_A64 ExtendReg/ShiftReg bitwise N=32,64", workers=4, heap="4g")
-    ctx.tlc_mc("MC_A64", "MC_A64_mask.cfg", key="MC_A64 DecodeBitMasks all N:imms:immr", workers=4, heap="4g")
-    ctx.tlc_mc("MC_A64", "MC_A64_field.cfg", key="MC_A64 fields, SImm, data window", workers=4, heap="4g")
+    # the four configurations are independent: run them side by side (4 workers each)
+    import concurrent.futures
+    jobs = [("MC_A64_flags.cfg", "MC_A64 NZCV lemmas w<=6 LimbBits=3"),
+            ("MC_A64_ext.cfg", "MC_A64 ExtendReg/ShiftReg bitwise N=32,64"),
+            ("MC_A64_mask.cfg", "MC_A64 DecodeBitMasks all N:imms:immr"),
+            ("MC_A64_field.cfg", "MC_A64 fields, SImm, data window")]
+    with concurrent.futures.ThreadPoolExecutor(len(jobs)) as ex:
+        futs = [ex.submit(ctx.tlc_mc, "MC_A64", cfg, key=key, workers=4, heap="4g") for cfg, key in jobs]
+        for f in futs:
+            f.result()
 
 
 def _word(e):
